@@ -1,18 +1,19 @@
-use apollo_parser::cst::CstNode;
 fn main() {
-    std::panic::set_hook(Box::new(|_| {}));
-    for s in ["", " ", "é", "é Int", "Int é", "!", "Int", " Int", "# c\nInt", "[é Int]", "é [Int]", ", Int", "Int!", "é Int!"] {
+    std::panic::set_hook(Box::new(|i| eprintln!("PANIC {i}")));
+    for s in [
+        "type Query { a: Int }\n{ a\u{FEFF}@include(if: $v) }",
+        "type Query { a: Int }\n{ b\u{FEFF} }",
+        "type Query { a: Int }\n{ bé }",
+        "type Query { a: Int }\n{ b \"é\" }",
+        "type Query { a: Int } { a(x: 1)\u{FEFF} }",
+        "type Query { a: Int } { b,é }",
+    ] {
         let r = std::panic::catch_unwind(|| {
-            let t = apollo_parser::Parser::new(s).parse_type();
-            format!("{:?} errors={:?} text={:?}", t.ty().syntax().kind(), t.errors().map(|e| e.message().to_string()).collect::<Vec<_>>(), t.ty().syntax().to_string())
+            match apollo_compiler::parser::Parser::new().parse_mixed_validate(s, "p.graphql") {
+                Ok(_) => "ok".to_string(),
+                Err(e) => { let t = e.to_string(); format!("{} errors, rendered {} bytes", e.len(), t.len()) }
+            }
         });
-        println!("parse_type({s:?}) -> {r:?}");
-    }
-    for s in ["", " ", "é", "é a", "a é", "{ a }", " { a }", "a", "# c\n a", ", a", "a b", "a }", "{ a } b", "é { a }"] {
-        let r = std::panic::catch_unwind(|| {
-            let t = apollo_parser::Parser::new(s).parse_selection_set();
-            format!("errors={:?} text={:?}", t.errors().map(|e| e.message().to_string()).collect::<Vec<_>>(), t.field_set().syntax().to_string())
-        });
-        println!("parse_selection_set({s:?}) -> {r:?}");
+        println!("{s:?} -> {r:?}");
     }
 }
